@@ -14,7 +14,6 @@ Notation pow2 := (opow2 K).
 Variable ilog2 : T -> Z.
 Variable thr : T.
 Variable orth_l orth_r : nat -> core T -> core T -> core T * core T.
-Variable root : Z -> nat -> T.
 
 Hypothesis Rth : rng K.
 Add Ring RrStabO : Rth.
@@ -189,6 +188,7 @@ Proof.
 Qed.
 
 (* ---------- truncate(use_stab=True): the final factor 2^(p/d) on each of the d cores restores 2^p ---------- *)
+Variable root : Z -> nat -> T.
 (* [body] is the rounding sweep (C02); whatever it returns (same index set), the result of truncate denotes
    2^p * body(Z), so the entrywise error against Y = 2^p Z is 2^p times the error of the rounding sweep on Z *)
 Theorem truncate_stab_exact body Y W idx :
@@ -211,3 +211,44 @@ Proof.
   split; [exact G|]. rewrite G, <- Ez. ring.
 Qed.
 End StabOrth.
+
+(* ---------- packaged statements ---------- *)
+Section PackagedOrth.
+Context {T : Type} (K : ops T) (ilog2 : T -> Z) (thr : T).
+Variable orth_l orth_r : nat -> core T -> core T -> core T * core T.
+Hypothesis L : stab_laws K.
+Let R := proj1 L. Let A := proj1 (proj2 L). Let Z0 := proj1 (proj2 (proj2 L)). Let D := proj2 (proj2 (proj2 L)).
+(* contracts of the two orthogonalisation oracles *)
+Definition orth_contract : Prop :=
+  (forall c G1 G2, cr2 G1 = cr1 G2 ->
+     pair_ok K G1 G2 (fst (orth_l c G1 G2)) (snd (orth_l c G1 G2)) /\ wfdat (snd (orth_l c G1 G2))) /\
+  (forall c G1 G2, cr2 G1 = cr1 G2 ->
+     pair_ok K G1 G2 (fst (orth_r c G1 G2)) (snd (orth_r c G1 G2)) /\ wfdat (fst (orth_r c G1 G2))).
+Hypothesis OC : orth_contract.
+
+Lemma P_orthogonalize_stab_exact Y k Zs p idx :
+  orthogonalize_stab K ilog2 thr orth_l orth_r Y k = Ok (Zs, p) -> wf 1 Y idx ->
+  wf 1 Zs idx /\ omul K (opow2 K p) (get K Zs idx) = get K Y idx.
+Proof. destruct OC as (O1 & O2). intros E W. eapply orthogonalize_stab_exact; eauto. Qed.
+Variable root : Z -> nat -> T.
+Lemma P_truncate_stab_exact body Y W idx :
+  (forall p, opow K (root p (length Y)) (length Y) = opow2 K p) ->
+  (forall Zs, length (body Zs) = length Zs) -> (forall Zs, wf 1 Zs idx -> wf 1 (body Zs) idx) ->
+  truncate_stab K ilog2 thr orth_l orth_r root body Y = Ok W -> wf 1 Y idx ->
+  exists Zs p, orthogonalize_stab K ilog2 thr orth_l orth_r Y (length Y - 1) = Ok (Zs, p) /\
+    omul K (opow2 K p) (get K Zs idx) = get K Y idx /\
+    get K W idx = omul K (opow2 K p) (get K (body Zs) idx) /\
+    osub K (get K Y idx) (get K W idx) = omul K (opow2 K p) (osub K (get K Zs idx) (get K (body Zs) idx)).
+Proof. destruct OC as (O1 & O2). intros H1 H2 H3 E W'. eapply truncate_stab_exact; eauto. Qed.
+End PackagedOrth.
+
+(* a trivial pair of oracles meeting the contract (non-vacuity): the identity step, re-stored *)
+Definition restore {T} (K : ops T) (G : core T) : core T := mkcore (cr1 G) (cn G) (cr2 G) (cget K G).
+Lemma restore_contract {T} (K : ops T) :
+  orth_contract K (fun _ G1 G2 => (G1, restore K G2)) (fun _ G1 G2 => (restore K G1, G2)).
+Proof.
+  split; intros c G1 G2 E; cbn [fst snd]; (split; [|apply wfdat_mk]); unfold pair_ok, restore;
+    rewrite ?cr1_mk, ?cn_mk, ?cr2_mk; repeat split; auto; intros a i j b Ha Hi Hj Hb.
+  - apply bsum_ext. intros x Hx. rewrite cget_mk by (auto; lia). reflexivity.
+  - apply bsum_ext. intros x Hx. rewrite cget_mk by (auto; lia). reflexivity.
+Qed.
